@@ -98,7 +98,7 @@ def judge_receiver(ctx, rec, side, case):
 def gen_pair(rng, quick):
     w = window_classes(rng)
     pkt = rng.choice((4096, 4097, 8192, 32768, (1 << 32) - 1))
-    cap = 250_000 if quick else 1_500_000
+    cap = 150_000 if quick else 1_500_000
     total = min(cap, rng.choice((w + 1, 2 * w, 3 * w + 5, 10 * w)))
     frac = rng.choice((0.0, 1.0, 0.5, rng.random()))
     read = rng.choice((1, 2, 100, w // 10, w // 10 + 1, w, 1 << 20))
@@ -148,33 +148,40 @@ def run_pair(ctx, case, rng):
         rd.start()
         for t in ths:
             t.start()
-        # wait (generously) for the writers; no verdict from this time limit
-        end = time.monotonic() + 150
+        # wait (generously) for the writers; no verdict from this time limit.  A stall candidate needs all of:
+        # writers alive, link drained and silent, nothing left to read, reader proven to be between reads.
+        SIG = "sender blocked at quiescence while the reader is drained"
+        end = time.monotonic() + 200
+        stalled = False
         while time.monotonic() < end and any(t.is_alive() for t in ths):
             time.sleep(0.005)
-            if any(t.is_alive() for t in ths) and p.link.quiescent(1.0):
-                break  # possibly stuck: go and look
-        p.link.set_latency(0)
-        alive = [t for t in ths if t.is_alive()]
-        if alive:
-            # candidate deadlock: logical evidence first (credit invariant), then the stack rule
-            drained = pair.wait_for(lambda: p.link.quiescent(0.3) and not r.recv_ready() and not r.recv_stderr_ready(), 20)
-            drained = drained and rd.settle() and p.link.quiescent(0.3)
+            if not (p.link.quiescent(1.0) and not r.recv_ready() and not r.recv_stderr_ready()):
+                continue
+            if not (rd.settle(5) and p.link.quiescent(1.0) and not r.recv_ready() and not r.recv_stderr_ready()):
+                continue
+            alive = [t for t in ths if t.is_alive()]
+            if not alive:
+                break
+            ctx.count("stall_candidates_examined")
             before = len(ctx.violations)
-            if drained:
-                judge_receiver(ctx, p.rec, rside, case)
-            SIG = "sender blocked at quiescence while the reader is drained"
-            if len(ctx.violations) == before and SIG in ctx.violations and drained:
-                ctx.count("stalls_after_first_verdict")  # same mechanism already witnessed with the full margin
-            elif len(ctx.violations) == before:
-                ok, st = cm.blocked_at_quiescence(alive, p.link, ctx.pick(10, 20)) if drained else (False, None)
-                if ok:
-                    ctx.violation(SIG,
-                                  "a writer is parked waiting for window although every delivered byte was consumed",
-                                  dict(case=case, stacks=st))
-                else:
-                    ctx.inconclusive("writers unfinished without quiescence (%s)" % errors)
+            known = SIG in ctx.violations
+            judge_receiver(ctx, p.rec, rside, case)  # logical evidence first
+            if len(ctx.violations) > before:
+                stalled = True
+                break
+            ok, st = cm.blocked_at_quiescence(alive, p.link, 1.0 if known else ctx.pick(10, 20))
+            if ok:
+                ctx.violation(SIG, "a writer is parked waiting for window although every delivered byte was consumed",
+                              dict(case=case, stacks=st))
+                stalled = True
+                break
+        p.link.set_latency(0)
+        if stalled:
             ctx.count("stalled_transfers")
+            rd.stop()
+            return
+        if any(t.is_alive() for t in ths):
+            ctx.inconclusive("writers unfinished without quiescence (%s)" % errors)
             rd.stop()
             return
         pair.wait_for(lambda: got["out"] >= n_out and got["err"] >= n_err, 60, 0.002)
@@ -304,8 +311,8 @@ def run(ctx):
     cm.install()
     rng = ctx.rng
     dl = ctx.deadline(30, 400)
-    n_pair = ctx.pick(8, 50)
-    n_ext = ctx.pick(6, 36)
+    n_pair = ctx.pick(6, 50)
+    n_ext = ctx.pick(5, 36)
     for i in range(n_ext):
         if time.time() > dl:
             break
@@ -323,7 +330,7 @@ def run(ctx):
         ctx.case(("pair", sorted(case.items(), key=str)), sample=case if i < 2 else None,
                  nontrivial=ctx.counters.get("quiescence_credit_checks", 0) > before)
     ctx.require("quiescence_credit_checks", 60)
-    ctx.require("transfers_completed", 30)
-    ctx.require("ext_cases", 24)
+    ctx.require("transfers_completed", 24)
+    ctx.require("ext_cases", 20)
     ctx.require("discarded_bytes_seen", 10000)
     ctx.require("adjusts_seen", 100)
